@@ -73,6 +73,7 @@ type GenXSpec struct {
 	Commitments []GXPacket  `json:"commitments"`
 	Receipts    []GXPacket  `json:"receipts"`
 	Seqs        []GXPacket  `json:"seqs"`
+	Then        []XStep     `json:"then,omitempty"` // proposals executed on the state InitGenesis produced
 }
 
 func packetStates(l []GXPacket) []packettypes.PacketState {
@@ -103,8 +104,18 @@ func jsonRoundTrip(cdc codec.Codec, in, out codec.ProtoMarshaler) (int, string) 
 	return 0, ""
 }
 
-func runGenX(e *env, s *GenXSpec) StepObs {
+func runGenX(e *env, s *GenXSpec) []StepObs {
+	o, ctx := runGenXInit(e, s)
+	obs := []StepObs{o}
+	if o.V == 0 && o.X == 0 {
+		obs = append(obs, runXSteps(e, ctx, s.Then)...)
+	}
+	return obs
+}
+
+func runGenXInit(e *env, s *GenXSpec) (StepObs, sdk.Context) {
 	o := StepObs{X: -1}
+	ctx, _ := e.base.CacheContext()
 	cg := clienttypes.GenesisState{NativeChainName: string(unhex(s.Native))}
 	for i := range s.Clients {
 		any, or := buildCS(&s.Clients[i].CS)
@@ -137,7 +148,7 @@ func runGenX(e *env, s *GenXSpec) StepObs {
 	var back xibctypes.GenesisState
 	if c, txt := jsonRoundTrip(e.app.AppCodec(), &gs, &back); c != 0 {
 		o.V, o.XErr = c, txt
-		return o
+		return o, ctx
 	}
 	var err error
 	p, val := hlib.Catch(func() { err = back.Validate() })
@@ -145,18 +156,17 @@ func runGenX(e *env, s *GenXSpec) StepObs {
 	o.VPanic = val
 	if o.V != 0 {
 		o.XErr = errText(err)
-		return o
+		return o, ctx
 	}
-	ctx, _ := e.base.CacheContext()
 	p, val = hlib.Catch(func() { xibc.InitGenesis(ctx, *e.app.XIBCKeeper, false, &back) })
 	o.X = classOf(p, nil)
 	o.XPanic = val
-	return o
+	return o, ctx
 }
 
 func genPacket(r *hlib.Rand) GXPacket {
 	p := GXPacket{Src: hx(chainPool[r.Intn(len(chainPool))]), Dst: hx(chainPool[r.Intn(len(chainPool))]), Seq: pickU(r, 1, 2, 3, 1<<63, ^uint64(0)), DataLen: 1 + r.Intn(40)}
-	if r.Chance(1, 8) {
+	if r.Chance(1, 12) {
 		switch r.Intn(4) {
 		case 0:
 			p.Src = hx(badChains[r.Intn(len(badChains))])
@@ -174,7 +184,7 @@ func genPacket(r *hlib.Rand) GXPacket {
 func genRelayer(r *hlib.Rand) GXRelayer {
 	good := sdk.AccAddress(bytes.Repeat([]byte{byte(1 + r.Intn(3))}, 20)).String()
 	rl := GXRelayer{Address: hx(good)}
-	if r.Chance(1, 3) {
+	if r.Chance(1, 6) {
 		rl.Address = hx(pick(r, "", "", "x", "not-bech32", good+"x"))
 	}
 	n := r.Intn(3)
@@ -188,9 +198,14 @@ func genRelayer(r *hlib.Rand) GXRelayer {
 	return rl
 }
 
+var metaKeys = []string{"recentSingers/0-5", "recentSingers/0-200", "recentSingers", "recentSingersX", "recentSingers/x", "recentSingers/1-2/3",
+	"pendingValidators", "iterateConsensusStates", "k", "clientState",
+	"consensusStates/\x00\x00\x00\x00\x00\x00\x00\x00\x00\x00\x00\x00\x00\x00\x00\x01", "consensusStates/\x00\x00\x00\x00\x00\x00\x00\x00\x00\x00\x00\x00\x00\x00\x00\xc8",
+	"consensusStates/x", "consensusStates/\x00\x00\x00\x00\x00\x00\x00\x00\x00\x00\x00\x00\x00\x00\x00\x01/processedTime"}
+
 func genGenX(r *hlib.Rand) *GenXSpec {
 	s := &GenXSpec{Native: hx("teleport")}
-	if r.Chance(1, 10) {
+	if r.Chance(1, 15) {
 		s.Native = hx(badChains[r.Intn(len(badChains))])
 	}
 	known := []string{}
@@ -198,50 +213,54 @@ func genGenX(r *hlib.Rand) *GenXSpec {
 	nc := r.Intn(4)
 	for i := 0; i < nc; i++ {
 		chain := chainPool[r.Intn(len(chainPool))]
-		if r.Chance(1, 10) {
+		if r.Chance(1, 20) {
 			chain = badChains[r.Intn(len(badChains))]
 		}
 		kind := kinds[r.Intn(4)]
-		if r.Chance(1, 10) {
+		if r.Chance(1, 20) {
 			kind = pick(r, "nil", "wrong")
 		}
-		s.Clients = append(s.Clients, GXClient{Chain: hx(chain), CS: genCS(r, kind)})
+		s.Clients = append(s.Clients, GXClient{Chain: hx(chain), CS: genCSp(r, kind, 1, 8)})
 		known = append(known, chain)
 		kindOf[chain] = kind
 	}
 	pickChain := func() string {
-		if len(known) > 0 && !r.Chance(1, 8) {
+		if len(known) > 0 && !r.Chance(1, 15) {
 			return known[r.Intn(len(known))]
 		}
 		return chainPool[r.Intn(len(chainPool))]
 	}
-	for i := r.Intn(3); i > 0; i-- {
+	for i := r.Intn(3); i > 0 && len(known) > 0; i-- {
 		chain := pickChain()
 		cc := GXCons{Chain: hx(chain)}
 		for j := r.Intn(3); j >= 0; j-- {
 			k := kindOf[chain]
-			if k == "" || k == "nil" || k == "wrong" || r.Chance(1, 6) {
+			if k == "" || k == "nil" || k == "wrong" || r.Chance(1, 10) {
 				k = kinds[r.Intn(4)]
 			}
-			if r.Chance(1, 12) {
+			if r.Chance(1, 20) {
 				k = pick(r, "nil", "wrong")
 			}
 			h := genHeight(r)
 			if !r.Chance(1, 6) && h.Rev == 0 && h.H == 0 {
 				h.H = 1
 			}
-			cc.States = append(cc.States, GXConsAt{Height: h, Cons: genCons(r, k)})
+			c := genCons(r, k)
+			if k == "tm" && c.Ts%(1<<33) == 0 && !r.Chance(1, 4) {
+				c.Ts = 1700000000
+			}
+			cc.States = append(cc.States, GXConsAt{Height: h, Cons: c})
 		}
 		s.Consensus = append(s.Consensus, cc)
 	}
-	for i := r.Intn(3); i > 0; i-- {
+	for i := r.Intn(3); i > 0 && len(known) > 0; i-- {
 		m := GXMeta{Chain: hx(pickChain())}
 		for j := r.Intn(3); j >= 0; j-- {
-			it := GXItem{Key: hx(pick(r, "recentSingers/0-5", "pendingValidators", "consensusStates/x", "iterateConsensusStates", "k")), ValLen: 1 + r.Intn(8)}
-			if r.Chance(1, 8) {
+			it := GXItem{Key: hx(metaKeys[r.Intn(len(metaKeys))]), ValLen: 1 + r.Intn(8)}
+			if r.Chance(1, 15) {
 				it.Key = ""
 			}
-			if r.Chance(1, 8) {
+			if r.Chance(1, 15) {
 				it.ValLen = 0
 			}
 			m.Items = append(m.Items, it)
@@ -262,6 +281,26 @@ func genGenX(r *hlib.Rand) *GenXSpec {
 	}
 	for i := r.Intn(3); i > 0; i-- {
 		s.Seqs = append(s.Seqs, genPacket(r))
+	}
+	// proposals on the imported state (mostly on the imported chains, mostly of the imported type)
+	if len(known) > 0 && r.Chance(2, 3) {
+		types := map[string]string{}
+		for c, k := range kindOf {
+			types[c] = k
+		}
+		for i := 1 + r.Intn(3); i > 0; i-- {
+			st := genXStep(r, false, types)
+			if st.Op != "relayer" && !r.Chance(1, 8) {
+				st.Chain = hx(known[r.Intn(len(known))])
+				if st.Op == "upgrade" && r.Chance(3, 4) {
+					if k := kindOf[string(unhex(st.Chain))]; k == "tm" || k == "bsc" || k == "eth" || k == "tss" {
+						st.CS = genCSp(r, k, 1, 4)
+						st.Cons = genCons(r, k)
+					}
+				}
+			}
+			s.Then = append(s.Then, st)
+		}
 	}
 	return s
 }
